@@ -31,6 +31,8 @@ type NodeSpec struct {
 	Slots  [][2]int
 	Flags  string // extra flags, e.g. "fail"
 	Link   string // "connected" (default) / "disconnected"
+	// Markers: migration markers appended to the slot columns, e.g. "[93-<-aaa]" (importing) or "[93->-ddd]" (migrating)
+	Markers []string
 }
 
 type Chunk struct {
@@ -314,6 +316,9 @@ func NodesText(nodes []NodeSpec) string {
 			} else {
 				l += fmt.Sprintf(" %d-%d", s[0], s[1])
 			}
+		}
+		for _, mk := range n.Markers {
+			l += " " + mk
 		}
 		lines = append(lines, l)
 	}
